@@ -137,18 +137,7 @@ func runC20(c *Ctx) {
 	for _, u := range closes {
 		construct := fmt.Sprintf("%s: close of the consumed-signal channel", fname(u.Fn))
 		// enclosing closure must be the argument of (*sync.Once).Do
-		ok := false
-		var thisOnce *types.Var
-		for _, mc := range p.closure[u.Fn] {
-			for _, ref := range *mc.Referrers() {
-				if ci, isCall := ref.(*ssa.Call); isCall && calleeName(ci) == "(*sync.Once).Do" {
-					if fa, isFA := ci.Common().Args[0].(*ssa.FieldAddr); isFA {
-						thisOnce = fieldOfAddr(fa)
-						ok = true
-					}
-				}
-			}
-		}
+		thisOnce, ok := c.onceGuard(u.Fn, 0)
 		if !ok {
 			c.bad("R20.1", construct, c.ipos(u.At), "the channel is closed outside a sync.Once; Read (after an error) and Close may both run, or run repeatedly, and a second close panics")
 			continue
@@ -167,9 +156,11 @@ func runC20(c *Ctx) {
 			continue
 		}
 		raises := false
-		for _, u := range closes {
-			if outermost(u.Fn) == m {
-				raises = true
+		for _, g := range c.region(m) {
+			for _, u := range closes {
+				if u.Fn == g {
+					raises = true
+				}
 			}
 		}
 		c.check(raises, "R20.1", construct, p.pos(m.Pos()), "closes the channel (once)", mname+" does not raise the consumed signal")
@@ -424,7 +415,7 @@ func (c *Ctx) rendezvous(fn *ssa.Function, dir string) {
 	construct := fmt.Sprintf("%s: hand-off channel", fname(fn))
 	var lookup *ssa.Lookup
 	var update *ssa.MapUpdate
-	allInstrs(fn, func(in ssa.Instruction) {
+	p.coneInstrs(fn, func(in ssa.Instruction) {
 		switch x := in.(type) {
 		case *ssa.Lookup:
 			if _, ok := x.X.Type().Underlying().(*types.Map); ok && x.CommaOk {
@@ -444,13 +435,18 @@ func (c *Ctx) rendezvous(fn *ssa.Function, dir string) {
 	}
 	okAll := true
 	// same map, same key
-	if !sameVal(lookup.X, update.Map) || !(lookup.Index == update.Key || sameVal(lookup.Index, update.Key)) {
+	sameMap := sameVal(lookup.X, update.Map) || samePaths(c.origins(lookup.X), c.origins(update.Map))
+	sameKey := lookup.Index == update.Key || sameVal(lookup.Index, update.Key) || samePaths(c.origins(lookup.Index), c.origins(update.Key))
+	if !sameMap || !sameKey {
 		okAll = false
 		c.bad(rule, construct, c.ipos(update), "the channel is created under a different map/key than the one looked up")
 	}
 	// key = parsed id
 	key := lookup.Index
-	if ex, ok := key.(*ssa.Extract); !ok || !isCallNamed(ex.Tuple, "github.com/google/uuid.Parse") {
+	if !c.allOrigins(key, func(a apath) bool {
+		ex, ok := a.Root.(*ssa.Extract)
+		return ok && len(a.Fields) == 0 && isCallNamed(ex.Tuple, "github.com/google/uuid.Parse")
+	}) {
 		okAll = false
 		c.bad(rule, construct, c.ipos(lookup), "the table is not keyed by the parsed id")
 	}
@@ -496,16 +492,10 @@ func (c *Ctx) rendezvous(fn *ssa.Function, dir string) {
 			if _, isChan := st.Chan.Type().Underlying().(*types.Chan); !isChan {
 				continue
 			}
-			ph, ok := st.Chan.(*ssa.Phi)
-			if !ok {
-				continue
-			}
-			fromTable := false
-			for _, e := range ph.Edges {
-				if ex, ok := e.(*ssa.Extract); ok && ex.Tuple == ssa.Value(lookup) {
-					fromTable = true
-				}
-			}
+			fromTable := c.someOrigin(st.Chan, func(a apath) bool {
+				ex, ok := a.Root.(*ssa.Extract)
+				return ok && len(a.Fields) == 0 && ex.Tuple == ssa.Value(lookup)
+			})
 			if !fromTable {
 				continue
 			}
@@ -576,4 +566,56 @@ func (c *Ctx) poolSharedRule(rule string, pkg *types.Package) {
 			c.check(!shared, rule, construct, c.ipos(in), "not shared over a channel", "an object that was handed to another goroutine over a channel is returned to a sync.Pool when this function ends: the receiver keeps using it while the next request re-initialises it — a reader past EOF then yields another call's bytes")
 		})
 	}
+}
+
+// onceGuard: fn only ever runs as (part of) the function handed to Do of one sync.Once that is
+// a struct field; returns that field.
+func (c *Ctx) onceGuard(fn *ssa.Function, depth int) (*types.Var, bool) {
+	p := c.P
+	if depth > ipMaxDepth {
+		return nil, false
+	}
+	var once *types.Var
+	n := 0
+	merge := func(f *types.Var, ok bool) bool {
+		if !ok || f == nil || (once != nil && once != f) {
+			return false
+		}
+		once = f
+		n++
+		return true
+	}
+	for _, ci := range p.callers[fn] {
+		call, ok := ci.(*ssa.Call)
+		if !ok {
+			return nil, false
+		}
+		if !merge(c.onceGuard(call.Parent(), depth+1)) {
+			return nil, false
+		}
+	}
+	for _, mc := range p.closure[fn] {
+		for _, ref := range *mc.Referrers() {
+			switch x := ref.(type) {
+			case *ssa.DebugRef:
+			case *ssa.Call:
+				if x.Common().Value == ssa.Value(mc) {
+					if !merge(c.onceGuard(x.Parent(), depth+1)) {
+						return nil, false
+					}
+					continue
+				}
+				if calleeName(x) != "(*sync.Once).Do" {
+					return nil, false
+				}
+				fa, ok := x.Common().Args[0].(*ssa.FieldAddr)
+				if !ok || !merge(fieldOfAddr(fa), true) {
+					return nil, false
+				}
+			default:
+				return nil, false
+			}
+		}
+	}
+	return once, n > 0
 }
